@@ -374,6 +374,9 @@ func (r *Runner) stmtSync(ctx context.Context, st *syntax.Stmt) {
 			r.exit.clear()
 		}
 	} else if b, ok := st.Cmd.(*syntax.BinaryCmd); ok && (b.Op == syntax.AndStmt || b.Op == syntax.OrStmt) {
+	} else if compoundNoErrExit(st.Cmd) {
+		// Like bash, a failing compound command does not trigger "errexit" by itself;
+		// the commands inside it have already done so unless they were exempt.
 	} else if !r.exit.ok() && !r.noErrExit {
 		r.trapCallback(ctx, r.callbackErr, "error")
 		// If the "errexit" option is set and a command failed, exit the shell. Exceptions:
@@ -395,6 +398,14 @@ func (r *Runner) stmtSync(ctx context.Context, st *syntax.Stmt) {
 			cls.Close()
 		}
 	}
+}
+
+func compoundNoErrExit(cm syntax.Command) bool {
+	switch cm.(type) {
+	case *syntax.Block, *syntax.IfClause, *syntax.WhileClause, *syntax.ForClause, *syntax.CaseClause:
+		return true
+	}
+	return false
 }
 
 func (r *Runner) cmd(ctx context.Context, cm syntax.Command) {
